@@ -43,11 +43,14 @@ RULE = (
     "try/finally close) x raw-peer script (data, ping, pong, fragments, close with/without code, protocol garbage, "
     "partial frame, TCP eof/reset/half-close) and its reactions (answer ping or not; close: echo / other code / late / "
     "never / drop TCP) x faults (reset/eof before loop step k or at byte k, cancel of an actor before step k, peer stops "
-    "reading for a while) x finale (kill, peer close, application close, none), segmentation, latency and timer/I-O "
+    "reading for a while; in 10 % of the runs the application's own side tears the connection down under the live session "
+    "at a seeded time or step: ClientSession.close() / connector.close() from another task, ClientResponse.close(), "
+    "protocol close()/abort(), server request.transport close()/abort() - half of those against a quiet session whose "
+    "first task only receives, without heartbeat or receive timeout) x finale (kill, peer close, application close, none), segmentation, latency and timer/I-O "
     "tie-breaks from the tape; in 8 % of the runs one side has autoclose off and its first task, once handed the peer's "
     "CLOSE, lingers 12-500 ms before close() / returning / the next receive() while heartbeat and receive timers are "
     "armed. Non-trivial: a session was established AND at least two of {close() issued while a "
-    "receive() was pending, peer close frame delivered, peer close frame handed to the application with the session "
+    "receive() was pending, the connection torn down from the session's own side (counted with kill), peer close frame delivered, peer close frame handed to the application with the session "
     "left open (autoclose off), kill fired, cancel fired inside a pending call, a timer "
     "(receive/close/pong) expired, protocol garbage delivered}. Distinct = interleaving signature."
 )
@@ -64,6 +67,11 @@ ASSUMPTIONS = [
     "virtual horizon (largest configured bound + margin)",
     "a receive() may stay pending only if nothing ended the session: not closed, connection alive, no peer close frame "
     "or protocol violation delivered, no receive timeout, no heartbeat",
+    "a call still pending when the loop has nothing left to do at all (no ready callback, timer or simulator event) is "
+    "pending forever and is judged at once; when the run stops at the virtual horizon with only later timers left, the "
+    "elapsed time of a pending call is measured up to the horizon",
+    "a connection closed or aborted from the session's own side (session/connector/response close, transport "
+    "close/abort) is a connection loss like any other: receive() must end, and 1006 is an accepted close code",
     "receive timeout is judged per inbound-silence gap (receive() restarts its timer after an auto-answered ping)",
     "runs with a peer that stops reading are exempt from the close-time and transport-closed-in-time bounds",
     "close_code is judged strictly only when nothing abnormal happened (no kill, cancel, garbage, hold, peer TCP action, "
@@ -215,6 +223,8 @@ def gen(rng, tier, index):
     # drawn last so that every other scenario keeps the shape it had before this feature existed
     if rng.random() < 0.08:
         _slow_close_reply(rng, scn)
+    if rng.random() < 0.10:
+        _local_teardown(rng, scn)
     return scn
 
 
@@ -267,6 +277,48 @@ def _slow_close_reply(rng, scn):
         scn["finale"]["what"] = "none"
 
 
+# ways in which the application's own side tears the connection down under a live session (not through ws.close())
+TEARDOWN = {
+    "cli": ["session_close", "session_close", "connector_close", "response_close", "proto_close", "proto_abort"],
+    "srv": ["transport_close", "transport_abort"],
+}
+
+
+def _local_teardown(rng, scn):
+    """Connection loss that starts on OUR side: while the session is live another actor of the application closes the
+    ClientSession / the connector / the response, or closes / aborts the transport (client: through the connection's
+    protocol, server: request.transport).  Half of the time the torn-down side is made quiet - no heartbeat, no receive
+    timeout, a silent peer, a first task that only receives - so that nothing but the loss itself can wake receive()."""
+    real = [s for s in ("cli", "cli", "srv") if s in scn]
+    sd = rng.choice(real)
+    s = scn[sd]
+    f = {"kind": "teardown", "side": sd, "how": rng.choice(TEARDOWN[sd])}
+    if rng.random() < 0.7:
+        f["t"] = rng.choice([0, 1, 3, 10, 30, 80, 200])
+    else:
+        f["at"] = rng.randint(1, rng.choice([40, 260]))
+    if rng.random() < 0.5:
+        s["heartbeat"] = None
+        s["receive_timeout"] = None
+        first = s["actors"][0]
+        first["ops"] = [[0, "iter", None]] if rng.random() < 0.3 else [[rng.choice([0, 0, 1]), "receive", None]
+                                                                         for _ in range(rng.randint(1, 3))]
+        first["finally_close"] = rng.random() < 0.2
+        if rng.random() < 0.6:
+            s["actors"] = s["actors"][:1]
+        if "peer" in scn:
+            p = scn["peer"]
+            p["script"] = [a for a in p["script"] if a[1] in ("text", "binary", "pong", "frag")][:2]
+        else:
+            other = scn["cli" if sd == "srv" else "srv"]
+            other["heartbeat"] = None
+            other["actors"] = [{"ops": [[0, "iter", None]], "finally_close": False, "role": "reader"}]
+        scn["faults"] = []
+        if rng.random() < 0.7:
+            scn["finale"]["what"] = "none"
+    scn["faults"] = scn["faults"] + [f]
+
+
 def _case(world, srv=None, cli=None, peer=None, faults=(), finale=("none", 200), lat=0):
     def side(d):
         base = {"close_timeout": 0.05, "receive_timeout": None, "autoclose": True, "autoping": True, "heartbeat": None,
@@ -293,6 +345,30 @@ def enumerate_cases(tier, seed):
     """Directed cases: the named races of the property record, in each world where they apply."""
     rd = [[0, "receive", None], [0, "receive", None]]
     idle = {"actors": [[[0, "iter", None]]]}
+    for real, world in (("cli", "C"), ("srv", "S")):
+        for how in sorted(set(TEARDOWN[real])):
+            for t in (1, 20):
+                # the application's own side tears the connection down under the session: a task blocked in
+                # receive() / async-for (no timer of its own), a second task in close(), a sender, an idle session
+                td = [{"kind": "teardown", "side": real, "how": how, "t": t}]
+                yield _case(world, **{real: {"actors": [rd]}}, faults=td)
+                yield _case(world, **{real: {"actors": [[[0, "iter", None]]]}}, peer={"script": [[0, "text", 3]]}, faults=td)
+                yield _case(world, **{real: {"actors": [rd, [[t, "close", 1000]]]}}, peer={"answer_close": "never"}, faults=td)
+                yield _case(world, **{real: {"actors": [[[t + 5, "receive", None]], [[t, "send_str", 5]]]}}, faults=td)
+            if world == "C":
+                yield _case("CS", cli={"actors": [rd]}, srv=idle, faults=[{"kind": "teardown", "side": "cli", "how": how, "t": 5}])
+            else:
+                yield _case("CS", srv={"actors": [rd]}, cli=idle, faults=[{"kind": "teardown", "side": "srv", "how": how, "t": 5}])
+    for real, world in (("cli", "C"), ("srv", "S")):
+        for hb in (0.02, 0.05):
+            for off in (-3, -2, -1, 0):
+                for lat in (1, 3):
+                    for kind in ("text", "ping", "pong"):
+                        # one peer frame delivered around the instant the first heartbeat becomes due (the tape orders
+                        # the delivery and the timer when they coincide), then a silent peer: the pong timeout must
+                        # still end the session
+                        yield _case(world, **{real: {"heartbeat": hb, "actors": [rd]}}, lat=lat, finale=("none", 150),
+                                    peer={"answer_ping": False, "script": [[int(hb * 1000) + off, kind, 2]]})
     for real, world in (("srv", "S"), ("cli", "C")):
         def mk(d, **kw):
             return _case(world, **{real: d}, **kw)
@@ -385,7 +461,9 @@ def enumerate_cases(tier, seed):
                         srv={"autoclose": ac, "actors": [rd, [[d, "close", 4001]]]})
 
 
-ENUM_RULE = ("directed cases: close() from a second task during a blocked receive() x peer reaction; peer-initiated and "
+ENUM_RULE = ("directed cases: each way of tearing the connection down from the application's own side (session / "
+             "connector / response close, transport close / abort) x {blocked receive(), async-for, close() in progress, "
+             "sender}; a peer frame delivered around the instant the heartbeat is due, then silence; close() from a second task during a blocked receive() x peer reaction; peer-initiated and "
              "crossing closes x autoclose; autoclose off x heartbeat x 10-200 ms between the peer's CLOSE and the "
              "application's close()/return/receive(); heartbeat vs. (un)answered pings; reset/eof/cancel before each of ~30 steps "
              "around a close handshake; each garbage class; chatty peer during close; receive timeouts")
@@ -396,6 +474,11 @@ def shrink(scn):
     if scn["faults"]:
         for i in range(len(scn["faults"])):
             yield dict(scn, faults=scn["faults"][:i] + scn["faults"][i + 1:])
+        for i, f in enumerate(scn["faults"]):
+            if f["kind"] == "teardown" and (f.get("at") is not None or f.get("t", 0) > 1):
+                # a step-placed or late teardown: try it at a fixed early time
+                nf = {"kind": "teardown", "side": f["side"], "how": f["how"], "t": 1}
+                yield dict(scn, faults=scn["faults"][:i] + [nf] + scn["faults"][i + 1:])
     if scn["finale"]["what"] != "none":
         yield dict(scn, finale=dict(scn["finale"], what="none"))
     for k in ("pol_c2s", "pol_s2c"):
@@ -631,6 +714,7 @@ def run(scn, ch, log=False):
                     return
                 cli.ws = ws
                 cli.tr = ws._response.connection.transport
+                cli.proto = ws._response.connection.protocol
                 if hold_run and cli.tr is not None:
                     cli.tr.set_write_buffer_limits(high=4096)
                 established()
@@ -660,6 +744,7 @@ def run(scn, ch, log=False):
 
         # ---- faults
         cancelled_tasks = set()
+        teardown_tasks = []
 
         def pending_call_of(task):
             for sd in sides.values():
@@ -705,6 +790,36 @@ def run(scn, ch, log=False):
                     net.hold(tr.out)
                     loop.sim_call_later(f["dur"] * W.TICK, net.release, tr.out)
                 loop.sim_call_later(f["t0"] * W.TICK, do_hold)
+            elif kind == "teardown":
+                def do_teardown(f=f):
+                    sd = sides.get(f["side"])
+                    if sd is None or sd.ws is None or sd.tr is None or sd.tr._closed:
+                        return
+                    how = f["how"]
+                    loop.faults["teardown_" + how] += 1
+                    loop.note("fault", f"teardown:{f['side']}:{how}")
+                    if any(c.t1 is None and c.op in ("receive", "receive_t", "iter") for c in sd.calls):
+                        probe("teardown_during_receive")
+                    if how == "session_close":
+                        teardown_tasks.append((how, loop.create_task(sd.session.close(), name="cli-teardown")))
+                    elif how == "connector_close":
+                        teardown_tasks.append((how, loop.create_task(sd.session.connector.close(), name="cli-teardown")))
+                    elif how == "response_close":
+                        sd.ws._response.close()
+                    elif how == "proto_close":
+                        sd.proto.close()
+                    elif how == "proto_abort":
+                        sd.proto.abort()
+                    elif how == "transport_close":
+                        sd.tr.close()
+                    elif how == "transport_abort":
+                        sd.tr.abort()
+                    else:
+                        raise AssertionError("unknown teardown " + how)
+                if f.get("at") is not None:
+                    loop.at_step.setdefault(base_step + f["at"], []).append(do_teardown)
+                else:
+                    loop.sim_call_later(f["t"] * W.TICK, do_teardown)
         kill_byte = [f for f in scn["faults"] if f["kind"] == "kill_byte"]
         if kill_byte and conns:
             f = kill_byte[0]
@@ -798,7 +913,12 @@ def run(scn, ch, log=False):
         horizon = base_t + max(fin["t"] * W.TICK, holds) + span + bound + 0.5
         loop.run_sim(None, vt_cap=horizon, step_cap=base_step + 40_000)
         step_capped = loop.capped == "steps"
-        now = loop.time()
+        # nothing at all is left to do - no ready callback, no timer, no simulator event: whatever is pending now
+        # stays pending forever, however short the virtual time that has passed
+        quiescent = bool(loop.idle)
+        # stopped by the virtual-time cap: the next timer lies beyond the horizon, nothing happens until then, and
+        # the clock (which only moves when an event fires) is taken to stand at the horizon
+        now = max(loop.time(), horizon) if loop.capped == "vtime" else loop.time()
         gc.collect()
         step_inv()
 
@@ -820,7 +940,8 @@ def run(scn, ch, log=False):
                     return t
             return None
 
-        kills_fired = any(k.startswith(("kill_", "finale_kill")) for k in loop.faults)
+        # a teardown from our own side is a connection loss like a kill: an abnormal end for the close-code rule
+        kills_fired = any(k.startswith(("kill_", "finale_kill", "teardown_")) for k in loop.faults)
         if len(conns) > 1:
             probe("reconnected")  # ws_connect retried on a new connection: objects of two sessions, not judged
         for sd in side_list:
@@ -890,7 +1011,8 @@ def run(scn, ch, log=False):
                                 f"{now - c.t0:.4f}s after the call; close timeout is {sd.close_timeout}s; {len(since)} inbound "
                                 f"deliveries since the call, the last {now - since[-1]:.4f}s ago (heartbeat={sd.heartbeat}); "
                                 f"calls: {[_fmt_call(x) for x in sd.calls]}")
-                    elif c.t1 is None and causes and not step_capped and now - c.t0 > 2 * sd.close_timeout + (sd.receive_timeout or 0.0):
+                    elif c.t1 is None and causes and not step_capped \
+                            and (quiescent or now - c.t0 > 2 * sd.close_timeout + (sd.receive_timeout or 0.0)):
                         violate("receive_returns", f"{name}:{c.op}_pending_after:{causes[0]}",
                                 f"{_fmt_call(c)} is still pending at quiescence (t={now:.4f}, {now - c.t0:.4f}s later) although "
                                 f"{'+'.join(causes)}; ws.closed={closed} close_code={ws.close_code} transport closed={tr._closed}; "
@@ -920,10 +1042,10 @@ def run(scn, ch, log=False):
                                 f"{_fmt_call(c)} raised an exception that is neither a connection nor a timeout error")
                 elif c.op == "close":
                     if c.t1 is None:
-                        if not step_capped and now - c.t0 > 2 * sd.close_timeout:
+                        if not step_capped and (quiescent or now - c.t0 > 2 * sd.close_timeout):
                             since = [t for t in rx_times if c.t0 < t]
                             nrx = len(since)
-                            if nrx and now - since[-1] <= sd.close_timeout:
+                            if nrx and now - since[-1] <= sd.close_timeout and now - c.t0 > 2 * sd.close_timeout:
                                 violate("close_time_bound", f"{name}:close_exceeds_timeout:inbound_frames_during_close",
                                         f"{_fmt_call(c)} is still pending at t={now:.4f}, {now - c.t0:.4f}s after the call; close timeout "
                                         f"is {sd.close_timeout}s; {nrx} inbound deliveries since the call (heartbeat={sd.heartbeat}); "
@@ -1084,6 +1206,12 @@ def run(scn, ch, log=False):
         for name_, msg_, et, ex_ in net.fatal_errors:
             violate("loop_exception", f"fatal:{et}", f"fatal protocol error on {name_}: {msg_} {ex_}")
 
+        for how_, t_ in teardown_tasks:
+            if not t_.done() and not step_capped:
+                violate("cleanup_returns", f"cli:{how_}_blocked", f"{how_}() issued under a live session is still pending at quiescence")
+            elif t_.done() and not t_.cancelled() and t_.exception() is not None:
+                violate("cleanup_returns", f"cli:{how_}_raised:{type(t_.exception()).__name__}",
+                        f"{how_}() issued under a live session raised {t_.exception()!r}")
         # ---- cleanup: must return, nothing may blow up
         if cli is not None and cli.session is not None:
             t2 = loop.run_sim(cli.session.close(), vt_cap=loop.time() + 10.0, step_cap=loop.steps + 20_000)
